@@ -125,6 +125,7 @@ var opNames = []string{
 	"t2j.Do(cut-middle)",
 	"t2j.Do(cut-end)",
 	"j2p.Do(bad)",
+	"j2p.Do(cut-behind-unknown-root-key)",
 	"p2j.Do(cut)",
 	"p2j.Do(int64str,cut-in-int64-key)",
 	"j2t.HTTPConv.Do(fallback,missing-required)",
@@ -150,6 +151,9 @@ var opNames = []string{
 	"p2j.Do(nested)",
 	"p2j.Do(int64str,nested)",
 	"thrift.GetByPath+Interface",
+	"thrift.GetByPath(shared name path,Inner)",
+	"thrift.GetByPath(shared name path,Sparse)",
+	"thrift.SetByPath(shared name path,Sparse)",
 	"thrift.Load+Marshal(pooled)",
 	"thrift.MarshalTo(Small)",
 	"thrift.SetMany(fork)",
@@ -171,6 +175,9 @@ type fixture struct {
 	svc2     *thrift.ServiceDescriptor // parsed with UseDefaultValue
 	hcResp2  *t2j.HTTPConv
 	sparseT  *thrift.TypeDescriptor
+	innerT   *thrift.TypeDescriptor
+	// arguments the callers own and share (read-only for the library): a path used by several ops
+	sharedPath, sharedPathInit []generic.Path
 	reqT     *thrift.TypeDescriptor
 	respT    *thrift.TypeDescriptor
 	smallT   *thrift.TypeDescriptor
@@ -323,6 +330,7 @@ func newFixture() (*fixture, error) {
 	f.respT = f.fnM.Response().Struct().FieldById(0).Type()
 	f.smallT = svc.Functions()["Cut"].Request().Struct().FieldById(1).Type()
 	f.shufT = svc.Functions()["Shuf"].Request().Struct().FieldById(1).Type()
+	f.innerT = f.reqT.Struct().FieldById(6).Type()
 	f.sparseT = svc.Functions()["Sp"].Response().Struct().FieldById(0).Type()
 	svc2, err := thrift.Options{UseDefaultValue: true}.NewDescritorFromContent(ctx, "a/b/defaults.thrift", defaultsIDL, nil, false)
 	if err != nil {
@@ -375,6 +383,9 @@ func newFixture() (*fixture, error) {
 	in["thrift-small-missing-required"] = tbin.Bytes(tbin.Struct(tbin.F(1, tbin.Str("only msg"))))
 	in["pbjson-bad"] = []byte(`{"msg":"pb","items":[{"a":1,"b":"x"},{"a":"zz"}],"code":7}`)
 	in["json-tiny"] = []byte(`{}`)
+	in["pbjson-cut-behind-unknown-root-key"] = []byte(`{"msg":"x","nope":`)
+	in["thrift-inner"] = tbin.Bytes(tbin.Struct(tbin.F(1, tbin.I32v(1)), tbin.F(2, tbin.Str("in-inner"))))
+	in["thrift-sparse"] = tbin.Bytes(tbin.Struct(tbin.F(1, tbin.Str("a-of-sparse")), tbin.F(70, tbin.Str("b-of-sparse"))))
 	in["json-number-ending-in-0"] = []byte(`{"msg":"flat","code":30}`)
 	in["json-top-number"] = []byte(`1230`)
 	// every shared input is the front of a larger allocation (cap > len, as a frame cut out of a receive buffer
@@ -414,6 +425,7 @@ func newFixture() (*fixture, error) {
 	add("t2j.Do(cut-middle)", func() ([]byte, error) { return f.t2jc.Do(ctx, f.reqT, in["thrift-cut-middle"]) })
 	add("t2j.Do(cut-end)", func() ([]byte, error) { return f.t2jc.Do(ctx, f.reqT, in["thrift-cut-end"]) })
 	add("j2p.Do(bad)", func() ([]byte, error) { return f.j2pc.Do(ctx, f.preqT, in["pbjson-bad"]) })
+	add("j2p.Do(cut-behind-unknown-root-key)", func() ([]byte, error) { return f.j2pc.Do(ctx, f.preqT, in["pbjson-cut-behind-unknown-root-key"]) })
 	add("p2j.Do(cut)", func() ([]byte, error) { return f.p2jc.Do(ctx, f.preqT, in["pb-cut"]) })
 	add("p2j.Do(int64str,cut-in-int64-key)", func() ([]byte, error) { return f.p2jc64.Do(ctx, f.preqT, in["pb-cut-int64-key"]) })
 	httpReq := func(method, url string, body []byte, ctype string, hdr map[string]string) (*dhttp.HTTPRequest, error) {
@@ -560,6 +572,27 @@ func newFixture() (*fixture, error) {
 		all, err := v.Interface(&generic.Options{})
 		return []byte(s + "|" + stable(all)), err
 	})
+	// one path value shared by every caller (a package-level "address of b"), resolved against two struct types in
+	// which the name has different ids (Inner: 2, Sparse: 70)
+	f.sharedPath = []generic.Path{generic.NewPathFieldName("b")}
+	f.sharedPathInit = append([]generic.Path{}, f.sharedPath...)
+	sharedPath := f.sharedPath
+	pathDump := f.argsDump
+	byShared := func(d *thrift.TypeDescriptor, key string) ([]byte, error) {
+		x := generic.NewValue(d, in[key]).GetByPath(sharedPath...)
+		if err := x.Check(); err != nil {
+			return nil, err
+		}
+		s, err := x.String()
+		return []byte(s + "|path=" + pathDump()), err
+	}
+	add("thrift.GetByPath(shared name path,Inner)", func() ([]byte, error) { return byShared(f.innerT, "thrift-inner") })
+	add("thrift.GetByPath(shared name path,Sparse)", func() ([]byte, error) { return byShared(f.sparseT, "thrift-sparse") })
+	add("thrift.SetByPath(shared name path,Sparse)", func() ([]byte, error) {
+		v := generic.NewValue(f.sparseT, in["thrift-sparse"]).Fork()
+		_, err := v.SetByPath(generic.NewValue(f.sparseT.Struct().FieldById(70).Type(), tbin.Bytes(tbin.Str("set"))), sharedPath...)
+		return append(append([]byte{}, v.Raw()...), ("|path=" + pathDump())...), err
+	})
 	add("thrift.Load+Marshal(pooled)", func() ([]byte, error) {
 		tree := generic.NewPathNode()
 		tree.Node = generic.NewNode(thrift.STRUCT, in["thrift-nested"])
@@ -686,6 +719,21 @@ func stable(v interface{}) string {
 
 // descMem is the fingerprint of every memory word reachable from the two service descriptors, unexported
 // fields included ("descriptor graphs: built once, must be read-only afterwards").
+func (f *fixture) argsDump() string {
+	var sb strings.Builder
+	for _, p := range f.sharedPath {
+		fmt.Fprintf(&sb, "%s;", p.String())
+	}
+	return sb.String()
+}
+
+// argsRestore puts the shared arguments back (after a violation was recorded) and tells whether they had changed.
+func (f *fixture) argsRestore() (was string, changed bool) {
+	was = f.argsDump()
+	copy(f.sharedPath, f.sharedPathInit)
+	return was, was != f.argsDump()
+}
+
 func (f *fixture) descMem() (uint64, int) { return deephash.Of(f.svc, f.psvc, f.svc2) }
 
 // dumpDescs renders everything the public accessors expose of the shared descriptors.
